@@ -331,6 +331,10 @@ def choose_cfgs(g, k, tier):
     grammars with eol / eolf and the atoms family run under all five.  Non-default initial counters for a rotating
     policy (all in the thorough tier)."""
     lazy_ok = not uses(g, "bol")            # bol reads in.column(), which a lazy input does not have (does not compile)
+    import re
+    if re.search(r"utf16_|utf32_|uint16_|uint32_|uint64_", g.root):
+        # documented exclusion (outside the oracle): keep one eager / lazy pair of each eol class for the correspondence only
+        return [("act1", "ctl2", 1, 1, "lf_crlf"), ("act1", "ctl2", 1, 1, "lf_crlf", "lazy"), ("act1", "ctl2", 1, 1, "cr"), ("act1", "ctl2", 1, 1, "cr", "lazy")]
     fams = [("act1", "ctl2", 1, 1), ("act3", "ctl2", 1, 0), ("act1", "ctl3", 1, 0), ("act3", "ctl0", 1, 1), ("act0", "ctl2", 0, 1)]
     if "atoms" in g.tags or (tier == "thorough" and "c06sys" not in g.tags) or uses(g, "eol") or uses(g, "eolf"):
         pols = list(POLICIES)
